@@ -38,6 +38,11 @@ Exch ==
           <<All(Ev.seen, LAMBDA s : s.bodyEq), "C06.BodyCompleteFromFirstByte">>,
           <<(~over /\ overAt) => Ev.status >= 400 /\ Ev.hbytes = 0, "C15.ResponseOverLimitReplaced">>,
           <<Ev.files = 0, "C15.NoTempFiles">>,
+          \* (a spilled REQUEST body cannot be seen in the directory: the library unlinks that file as soon as it is created)
+          <<cfg.memResp >= 0 =>
+               All(Ev.seen, LAMBDA s : LET w == SumSeq(Sc(scripts, s.k).writes) IN
+                                       (w > cfg.memResp /\ (cfg.maxResp < 0 \/ w <= cfg.maxResp)) => s.afterFiles >= s.entryFiles + 1),
+            "C15.BeyondThresholdSpilled">>,
           <<~Ev.panicked, "C07.ExactlyOneResponse">>,
           <<(~over /\ ~overBefore /\ w0 = w2) => inv = w0, "C07.InvocationCount">>,
           <<inv <= MaxAttempts + 1, "C07.AtMostElevenInvocations">>,
